@@ -431,7 +431,7 @@ func (s *Sim) cbAction(t *txn, o *ObsInst, oi int, act int, h ecs.Entity, ent *E
 		}
 	case CbRegNew:
 		for j, other := range s.observers {
-			if j != oi && !other.Registered && !other.touched {
+			if j != oi && !other.Registered && !other.touched && !other.Invalid {
 				other.O.Register(s.W)
 				other.Registered = true
 				other.Epoch = s.M.Epoch
